@@ -24,8 +24,9 @@
 (*                                                                         *)
 (* The PROPERTY says the SQL is F[prog]: none of these fields may matter.  *)
 (* `UnderFun` is the one place where the code AS BUILT lets a field matter *)
-(* (section 9 row 3 of DESIGN.md): parse.EnactIncantations switches        *)
-(* tooMuch on and nothing switches it off.  It is used only by the         *)
+(* (section 9 row 3 of DESIGN.md; repaired in /repo by commit 720d71e):    *)
+(* parse.EnactIncantations switched tooMuch on and nothing switched it     *)
+(* off.  It is used only by the                                            *)
 (* implementation-shaped model ("asbuilt") and to EXPLAIN a deviation; the *)
 (* verdict never depends on it (rule R1).                                  *)
 (***************************************************************************)
